@@ -24,8 +24,9 @@ func (a action) String() string {
 	switch a.Op {
 	case "rel":
 		s := "rel:" + a.P
-		if a.Arg == 1 {
-			s += ":fail"
+		if a.Arg >= 1 {
+			_, label := sendFailure(a.Arg)
+			s += ":" + label
 		}
 		return s
 	case "travel":
@@ -52,6 +53,9 @@ type budget struct {
 	Travel   int
 	TravelMs []int // durations offered
 	SendFail int
+	// SendFailKinds: failure kinds offered when a parked send is released with a
+	// failure (nil: plain error only).
+	SendFailKinds []int
 	// AckShapes: batch layouts offered for every ack (nil: the single-id batch).
 	AckShapes []string
 	// CancelEarly allows cancelling a context before its Do was started.
@@ -168,7 +172,12 @@ func (r *runner) enabled() []action {
 	for _, p := range r.w.parkedSnapshot() {
 		out = append(out, action{Op: "rel", I: p.a.call, P: p.key()})
 		if p.point == "send" && b.SendFail > 0 {
-			out = append(out, action{Op: "rel", I: p.a.call, P: p.key(), Arg: 1})
+			if len(b.SendFailKinds) == 0 {
+				out = append(out, action{Op: "rel", I: p.a.call, P: p.key(), Arg: 1})
+			}
+			for _, kd := range b.SendFailKinds {
+				out = append(out, action{Op: "rel", I: p.a.call, P: p.key(), Arg: kd})
+			}
 		}
 	}
 	sort.SliceStable(out, func(i, j int) bool { return out[i].String() < out[j].String() })
@@ -220,7 +229,7 @@ func (r *runner) exec(a action) {
 	case "rel":
 		for _, p := range w.parkedSnapshot() {
 			if p.key() == a.P {
-				if a.Arg == 1 {
+				if a.Arg >= 1 {
 					b.SendFail--
 				}
 				w.release(p, a.Arg)
